@@ -394,7 +394,7 @@ def gmres_matrices(tier):
     if tier == "thorough":
         rng = np.random.RandomState(20240913)       # fixed: the TLC catalog does not depend on VERIF_SEED
         cnt = 0
-        while cnt < 40:
+        while cnt < 160:
             n = int(rng.choice([2, 3, 3, 4]))
             cplx = rng.rand() < 0.4
             dens = 0.8 if n <= 3 else 0.45
@@ -569,6 +569,20 @@ def svd_cases(tier):
         plan += [("H4", "H4c", [7, 5, 3, 1]), ("P3c", "P3", [9, 4, 2]), ("Q3", "Q3c", [7, 4, 1]), ("H4", "R2c", [4, 1]),
                  ("R2", "H4c", [6, 2]), ("P4", "Q3", [5, 4, 3]), ("Q3", "P4", [5, 4, 3]), ("H4c", "I1", [2]),
                  ("J1", "H4", [4]), ("I2", "Q3", [2, 1]), ("Q3c", "I2", [9, 1])]
+    # systematic part: pairs of factors with two families of singular values
+    names = sorted(U)
+    idx = 0
+    for un in names:
+        for vn in names:
+            idx += 1
+            if tier == "quick" and idx % 4:
+                continue
+            r = min(U[un]["r"], U[vn]["r"])
+            for si, full in enumerate(([8, 4, 2, 1], [7, 5, 3, 2])):
+                if si == 1 and (tier == "quick" or r == 1):
+                    continue
+                if (un, vn, full[:r]) not in [(a, b, c) for a, b, c in plan]:
+                    plan.append((un, vn, full[:r]))
     cases, dropped = [], 0
     for un, vn, sig in plan:
         Um, Vm = U[un], U[vn]
@@ -661,6 +675,18 @@ def pinv_cases(tier):
                       "w34": [[1, 0, 0, 1], [0, 2, 0, -1], [0, 0, 1, 1]], "t43": [[1, 0, 0], [0, 1, 0], [0, 0, 2], [1, 1, 1]],
                       "w23d": [[1 + I, 0, 1], [0, 2, -I]], "t32d": [[2, I], [0, 1], [1 - I, 0]],
                       "s44": [[1, 1, 0, 0], [0, 2, 1, 0], [0, 0, 1, 1], [1, 0, 0, 2]]})
+    if tier == "thorough":
+        rng = np.random.RandomState(20240914)       # fixed: the TLC catalog does not depend on VERIF_SEED
+        cnt = 0
+        while cnt < 60:
+            m, n = [(2, 3), (3, 2), (3, 3), (2, 4), (4, 2), (3, 4), (4, 3), (1, 4), (4, 1), (4, 4), (2, 2)][cnt % 11]
+            A = rng.randint(-2, 3, size=(m, n)).astype(complex)
+            if rng.rand() < 0.4:
+                A = A + 1j * rng.randint(-1, 2, size=(m, n)) * (rng.rand(m, n) < 0.4)
+            if np.linalg.matrix_rank(A) < min(m, n):
+                continue
+            dense[f"rnd{cnt}_{m}x{n}"] = [[complex(x) if x.imag else int(x.real) for x in row] for row in A]
+            cnt += 1
     struct = [
         {"kind": "Identity", "n": 3}, {"kind": "Identity", "n": 2},
         {"kind": "ScalarMul", "n": 3, "c": [2, 0]}, {"kind": "ScalarMul", "n": 2, "c": [-3, 0]},
